@@ -239,16 +239,16 @@ Qed.
 Lemma view_before_policy_protected s pre o post truthy d p :
   let batch := pre ++ SView o :: post ++ [SPolicy truthy false] in
   o_exc_only o = false -> o_perm o = Some p -> is_npr p = false ->
-  derive1 (cs_rs (commit s batch)) view_classifier false o (Plain (o_behave o)) = Some d ->
+  derive1 (cs_rs (commit s batch)) view_classifier false (viewdefaults o) (Plain (o_behave o)) = Some d ->
   In (r_tag (d_reg d), d) (cs_D (commit s batch)) /\ d_perm d = Some p.
 Proof.
   intros batch He Hp Hn Hd. split.
-  - apply (commit_registers s batch o (Plain (o_behave o)) d); [|left; split; assumption].
+  - apply (commit_registers s batch (viewdefaults o) (Plain (o_behave o)) d); [|left; split; assumption].
     unfold batch. rewrite map_app. simpl.
     clear. induction pre as [|x r IH]; simpl; [left; reflexivity|].
     destruct (directive (cs_rs s) x); [right|]; exact IH.
-  - unfold derive1 in Hd. destruct (make pred_names (o_kw o)); [|discriminate]. inversion Hd; subst d; simpl.
-    rewrite Hp. apply secured_explicit; [|exact Hn].
+  - unfold derive1 in Hd. destruct (make pred_names (o_kw (viewdefaults o))); [|discriminate]. inversion Hd; subst d.
+    cbn [d_perm viewdefaults with_perm o_perm]. rewrite Hp. apply secured_explicit; [|exact Hn].
     rewrite commit_policy. unfold batch. rewrite existsb_app. simpl. rewrite existsb_app. simpl.
     rewrite !orb_true_r. reflexivity.
 Qed.
@@ -260,7 +260,7 @@ Qed.
 Definition ex_v : text := [118]%N.
 Definition ex_d : text := [100]%N.
 Definition ex_opts (t : N) (name : text) (perm : option text) : vopts :=
-  mkVO t 1%N 0%N name [] perm false false [] true BReturn false.
+  mkVO t 1%N 0%N name [] perm false false [] true BReturn false None.
 Definition ex_prog : list stmt :=
   [SView (ex_opts 1%N [] (Some ex_v)); SView (ex_opts 2%N [110%N] None); SDefPerm ex_d true false; SPolicy true false].
 Definition ex_rq (name : text) : rq5 :=
@@ -284,17 +284,17 @@ Proof. vm_compute. reflexivity. Qed.
 
 Example ex_judge_accepts :
   let '(tr, fin) := run_request (configure 1%N 7%N 8%N [ex_prog]) [(ex_v, CRes 0%N)] (ex_rq []) in
-  judge ex_prog (overridden_tags [ex_prog]) (proj_trace tr) (proj_final fin) = 0%N.
+  judge ex_prog (overridden_tags [ex_prog]) (winner_tags (cs_D (configure 1%N 7%N 8%N [ex_prog])) (ex_rq [])) (proj_trace tr) (proj_final fin) = 0%N.
 Proof. vm_compute. reflexivity. Qed.
 
 (* the judge rejects a log in which the body ran without the check *)
-Example ex_judge_rejects : judge ex_prog [] [Body 1%N (CRes 0%N)] (Resp 1%N) = 1%N.
+Example ex_judge_rejects : judge ex_prog [] [1%N] [Body 1%N (CRes 0%N)] (Resp 1%N) = 1%N.
 Proof. vm_compute. reflexivity. Qed.
 
 (* the hypotheses of view_before_policy_protected are satisfiable *)
 Example ex_view_before_policy :
   exists d, derive1 (cs_rs (commit (init_state 1%N 7%N 8%N) ([] ++ SView (ex_opts 1%N [] (Some ex_v)) :: [] ++ [SPolicy true false])))
-                    view_classifier false (ex_opts 1%N [] (Some ex_v)) (Plain BReturn) = Some d /\ d_perm d = Some ex_v.
+                    view_classifier false (viewdefaults (ex_opts 1%N [] (Some ex_v))) (Plain BReturn) = Some d /\ d_perm d = Some ex_v.
 Proof. eexists. split; vm_compute; reflexivity. Qed.
 
 (* ================================================================== *)
@@ -302,8 +302,8 @@ Proof. eexists. split; vm_compute; reflexivity. Qed.
    exception view is being rendered (add_view(context=Boom, permission='v') used as exception view) *)
 Definition ex_prog2 : list stmt :=
   [SPolicy true false;
-   SView (mkVO 1%N 1%N 0%N [] [] None false false [] false (BRaise EBoom) false);
-   SView (mkVO 2%N 1%N 5%N [] [] (Some ex_v) true false [] false BReturn false)].
+   SView (mkVO 1%N 1%N 0%N [] [] None false false [] false (BRaise EBoom) false None);
+   SView (mkVO 2%N 1%N 5%N [] [] (Some ex_v) true false [] false BReturn false None)].
 Definition ex_rq2 : rq5 :=
   mkRq5 (mkReq [71; 69; 84]%N [] [] false None false [] [] false [] [] [] [] [] [])
         (CRes 0%N) [1; 0]%N [1; 0]%N [1; 0]%N [0]%N [[0]; [0]; [0]; [0]; [5; 0]; [0]]%N true.
@@ -506,7 +506,7 @@ Definition ex_override : list (list stmt) :=
 Example ex_overridden_tags : overridden_tags ex_override = [1%N].
 Proof. vm_compute. reflexivity. Qed.
 Example ex_judge_rejects_overridden :
-  judge (concat ex_override) (overridden_tags ex_override) [Deco 1%N (CRes 0%N); Body 1%N (CRes 0%N)] (Resp 1%N) = 128%N.
+  judge (concat ex_override) (overridden_tags ex_override) [1%N] [Deco 1%N (CRes 0%N); Body 1%N (CRes 0%N)] (Resp 1%N) = 128%N.
 Proof. vm_compute. reflexivity. Qed.
 Example ex_model_runs_the_override :
   run_request (configure 1%N 7%N 8%N ex_override) [] (ex_rq []) =
